@@ -98,7 +98,11 @@ def run_faultconc(idx, bound, n_random, sub_seed):
     try:
         runner = C.ScenarioRunner(scn, scratch)
         sites = set()
-        for ob, probs, wk, k in C.explore_with_faults(runner, rng, bound, n_random, rng.choice([errno.EIO, errno.ENOSPC, errno.EACCES])):
+        import itertools as _it
+        code = rng.choice([errno.EIO, errno.ENOSPC, errno.EACCES])
+        # one-off failures and failures that persist for the destination (a move is then not rescued by its copy fall-back)
+        modes = (bool(idx % 2),) if bound == 0 else (False, True)
+        for ob, probs, wk, k in _it.chain.from_iterable(C.explore_with_faults(runner, rng, bound, n_random, code, persistent=m) for m in modes):
             res.evaluations += 1
             res.count("schedules")
             res.count("fault_under_contention_schedules")
